@@ -354,6 +354,122 @@ def addProcessGroup {ν : Type} (vTrue : ν) (mood : Int) (found : Bool) (constr
   | some g => runGated g mood 0 (fun s => (.value vTrue, s)) (addGroupBody vTrue found construct) s
   | none => (.raised "extraction", s)
 
+/-! ## deferred answers of startProcess / stopProcess (wait=True)
+
+  The callback the method returns (`onwait`) is polled once per main-loop tick.  What it answers at one
+  poll is the generated `startOnwait` / `stopOnwait` — the whole body of the callback as a function of
+  what it reads of the process (`spawnerr`, `get_state()`).  Between two polls anything can happen to the
+  process (another client stops or starts it, the child dies, a kill fails): the schedule of what the
+  callback reads is arbitrary. -/
+
+/-- what the callback reads of the process at one poll -/
+structure PView where
+  spawnerr : Bool
+  state : Int
+deriving DecidableEq, Repr
+
+inductive WaitKind | start | stop
+deriving DecidableEq, Repr
+
+def onwait : WaitKind → PView → WaitAns
+  | .start, p => startOnwait p.spawnerr p.state
+  | .stop, p => stopOnwait p.spawnerr p.state
+
+/-- does the method answer later (return the callback) when, after its own spawn()/stop(), reap() and transition(),
+    the process looks like `p`? -/
+def defers : WaitKind → Bool → PView → Bool
+  | .start, wait, p => startDefers wait p.spawnerr p.state
+  | .stop, wait, p => stopDefers wait p.spawnerr p.state
+
+def stateCode (name : String) : Option Int := procStates.lookup name
+
+/-- the states from which the process MUST move on, so that waiting for it is not waiting for ever:
+    start — STARTING without a spawn error (startsecs elapse, or the child goes away, or it is stopped);
+    stop  — any state that is not a stopped state (the kill has been sent; reap() or the SIGKILL escalation follows) -/
+def mustMoveOn : WaitKind → PView → Bool
+  | .start, p => !p.spawnerr && (some p.state == stateCode "STARTING")
+  | .stop, p => !(procStoppedStates.contains p.state)
+
+/-- is the code one of ProcessStates? -/
+def validState (c : Int) : Bool := (procStates.map (·.2)).contains c
+
+/-- one poll's answer as the model's outcome language: a fault name missing from Faults is an AttributeError -/
+def waitAnsOk : WaitAns → Bool
+  | .again => true
+  | .done => true
+  | .fault n => (faultCode n).isSome
+  | .other _ => false
+
+/-- the callback polled once per tick: `sched k` is what it reads at poll `k`; at most `f` polls.
+    The first answer other than NOT_DONE_YET, and the poll at which it came. -/
+def waitPolls (kind : WaitKind) (sched : Nat → PView) : Nat → Nat → Option (WaitAns × Nat)
+  | 0, _ => none
+  | f+1, k =>
+    if onwait kind (sched k) = .again then waitPolls kind sched f (k + 1)
+    else some (onwait kind (sched k), k)
+
+/-- the same callback in the outcome language of `call` / `multicall` (`Cb`): it reads the process out of
+    the state with `view`, and changes nothing.  `n` bounds how often it can be polled (a `Cb` is a finite object). -/
+def ansPoll {σ ν : Type} (vTrue : ν) (self : Cb σ ν) (a : WaitAns) (s : σ) : PollR σ ν :=
+  match a with
+  | .again => .again self s
+  | .done => .value vTrue s
+  | .fault n => (match faultCode n with
+                 | some c => .fault c s
+                 | none => .raised "AttributeError" s)
+  | .other w => .raised w s
+
+def onwaitCb {σ ν : Type} (kind : WaitKind) (view : σ → PView) (vTrue : ν) : Nat → Cb σ ν
+  | 0 => .mk fun s => .raised "poll bound" s
+  | n+1 => .mk fun s => ansPoll vTrue (onwaitCb kind view vTrue n) (onwait kind (view s)) s
+
+/-- the state the callback is polled in at its `j`-th poll, when it is first polled at tick `k` in state `s` and
+    `env` acts between ticks (the callback itself changes nothing) -/
+def stateAt {σ : Type} (env : Nat → σ → σ) : Nat → σ → Nat → σ
+  | _, s, 0 => s
+  | k, s, j+1 => stateAt env (k + 1) (env k s) j
+
+/-! ## marshalling the answer: `xmlrpc_marshal`
+
+  A value that is not a Fault is wrapped into a 1-tuple — unless it IS a tuple, which is taken for the
+  already wrapped parameter tuple and handed to `xmlrpclib.dumps(..., methodresponse=True)` as it is:
+  that asserts `len(params) == 1`.  So a method returning a tuple of another length is an HTTP 500, and
+  a 1-tuple answers its element; inside `system.multicall` the same value is one element of the result
+  list and is marshalled as an array. -/
+
+inductive PyShape
+  | scalar | list | dict
+  | tuple (n : Nat)
+deriving DecidableEq, Repr
+
+inductive Marshalled
+  | value            -- the response carries the value itself
+  | element          -- the response carries the only element of the tuple
+  | assertion        -- AssertionError ("response tuple must be a singleton") → the catch-all → HTTP 500
+deriving DecidableEq, Repr
+
+def PyShape.isTuple : PyShape → Bool
+  | .tuple _ => true
+  | _ => false
+
+/-- `xmlrpc_marshal(value)` for a value that is not a Fault -/
+def marshalValue (sh : PyShape) : Marshalled :=
+  if marshal_g0 false sh.isTuple then
+    if marshal_g1 false sh.isTuple then .value
+    else match sh with
+      | .tuple 1 => .element
+      | _ => .assertion
+  else .value
+
+/-- the same value as one element of a multicall result: always marshalled as itself (a tuple as an array) -/
+def marshalElement (_sh : PyShape) : Marshalled := .value
+
+/-- may a method return something of this syntactic shape? (`via`: judged at the function named; `opaque`: not
+    visible in the syntax) -/
+def retNotTuple : RetShape → Bool
+  | .tuple => false
+  | _ => true
+
 /-! ## line protocol
   case rpc <entry>*        entry = <hexns>  |  <hexns>:<hexattr>:o  |  <hexns>:<hexattr>:m<min>,<max>,<beh>
                            beh   = v<id> | f<code> | x | t | d<k>,<final>      final = v<id> | f<code> | x
@@ -365,6 +481,10 @@ def addProcessGroup {ν : Type} (vTrue : ν) (mood : Int) (found : Bool) (constr
         header <hex piece|->,...            → the same for the header buffer
         decode <hex>                        → text <code points,..|-> | raises UnicodeDecodeError
         addgroup <mood> <found 0|1> <ok1|ok0|raise:<class>|->   → value true | fault <c> | raised <class>
+        onwait <start|stop> <spawnerr 0|1> <state>            → again | done | fault <c> | other
+        defers <start|stop> <wait 0|1> <spawnerr 0|1> <state> → 0 | 1
+        wait <start|stop> <fuel> <spawnerr:state,...>         → answer <done|fault c|other> poll=<k> | pending   (the last entry is held)
+        marshal <scalar|list|dict|tuple<n>>                   → value | element | assert
 -/
 abbrev Log := List String
 
@@ -477,6 +597,31 @@ def showPyRes : Except String PyStr → String
 
 def parsePieces (t : String) : Option (List Bytes) := (t.splitOn ",").mapM bytesOfHex
 
+def parseKind (t : String) : Option WaitKind :=
+  if t = "start" then some .start else if t = "stop" then some .stop else none
+
+def parseBit (t : String) : Option Bool :=
+  if t = "1" then some true else if t = "0" then some false else none
+
+def parseView (t : String) : Option PView :=
+  match t.splitOn ":" with
+  | [se, st] => match parseBit se, st.toInt? with
+    | some se, some st => some ⟨se, st⟩
+    | _, _ => none
+  | _ => none
+
+def showWaitAns : WaitAns → String
+  | .again => "again"
+  | .done => "done"
+  | .fault n => (match faultCode n with
+                 | some c => s!"fault {c}"
+                 | none => "other")
+  | .other _ => "other"
+
+def parseShape (t : String) : Option PyShape :=
+  if t = "scalar" then some .scalar else if t = "list" then some .list else if t = "dict" then some .dict
+  else if t.startsWith "tuple" then (t.drop 5).toString.toNat?.map .tuple else none
+
 def countTicks {σ ν : Type} (tbl : Table (Method σ ν)) : Nat → Nat → MC σ ν → σ → Nat
   | 0, k, _, _ => k
   | f+1, k, m, s =>
@@ -527,6 +672,29 @@ def rpcOps (tbl : Table (Method Log Int)) (s : Log) : List String → List Strin
            | .deferred _ => "deferred"
          else "bad-op"
        | _, _ => "bad-op") :: rpcOps tbl s rest
+    | ["onwait", kind, se, st] =>
+      (match parseKind kind, parseBit se, st.toInt? with
+       | some kind, some se, some st => showWaitAns (onwait kind ⟨se, st⟩)
+       | _, _, _ => "bad-op") :: rpcOps tbl s rest
+    | ["defers", kind, w, se, st] =>
+      (match parseKind kind, parseBit w, parseBit se, st.toInt? with
+       | some kind, some w, some se, some st => if defers kind w ⟨se, st⟩ then "1" else "0"
+       | _, _, _, _ => "bad-op") :: rpcOps tbl s rest
+    | ["wait", kind, fuel, sched] =>
+      (match parseKind kind, fuel.toNat?, (sched.splitOn ",").mapM parseView with
+       | some kind, some fuel, some (v :: vs) =>
+         let l := v :: vs
+         match waitPolls kind (fun k => l.getD k (l.getLastD v)) fuel 0 with
+         | some (a, k) => s!"answer {showWaitAns a} poll={k}"
+         | none => "pending"
+       | _, _, _ => "bad-op") :: rpcOps tbl s rest
+    | ["marshal", sh] =>
+      (match parseShape sh with
+       | some sh => (match marshalValue sh with
+                     | .value => "value"
+                     | .element => "element"
+                     | .assertion => "assert")
+       | none => "bad-op") :: rpcOps tbl s rest
     | ["collect", ps] =>
       (match parsePieces ps with
        | some pieces => showPyRes (requestBody pieces)
